@@ -44,8 +44,7 @@ impl Ctx {
             .arg("--out")
             .arg(&fout)
             .arg("--timeout")
-            // under the clock seam the per-step watchdog reads the warped clock: switch it off
-            .arg(if plan.clock.is_some() { "315360000".to_string() } else { timeout_s.to_string() })
+            .arg(timeout_s.to_string())
             .env_clear();
         if let Some(w) = &plan.clock {
             // target/release/dexsim -> target/clockwarp.so
